@@ -79,6 +79,16 @@ class Compiler:
 
     @_compile.register
     def _select(self, node: ast.Select):
+        # Each SELECT statement compiles its own FROM clause. Do not
+        # leak the table it selects from into the statement it is
+        # nested in.
+        table = self.table
+        try:
+            return self._compile_select(node)
+        finally:
+            self.table = table
+
+    def _compile_select(self, node):
 
         # Compile the FROM clause.
         c_from_expr = self._compile_from(node.from_clause)
